@@ -1,4 +1,5 @@
 import Holpy.C13.Proofs
+import Holpy.C13.Goal
 /-
 C13 — property theorems about the structural model of Holpy/C13/Model.lean (numbering and
 citations of a proof state under the editing operations).  What is proved is the *citation* half
@@ -101,6 +102,15 @@ theorem goal_preserved_nested_partial (s s' : Proof) (i j : Nat) (rest : List Na
     · simp at h
     · rw [hrest] at h; exact sig_modifyAt_nested _ _ _ _ _ h
 
+/-- Along every completed sequence of `add_line_before` / `remove_line` / `set_line` calls whose
+targets are existing lines and never the last top-level line itself (`safeRun`: what the methods
+establish — they insert before existing lines and remove/overwrite gaps or lines they inserted,
+while the last line is the `intros` line), the last top-level line keeps its rule and its stated
+sequent.  Partial: `replace_id` and the composite `apply_tactic` are not covered by the theorem. -/
+theorem goal_preserved_partial (ops : List Op) (s s' : Proof) (hs : safeRun s ops) (h : run s ops = .ok s') :
+    (s'.getLast?).map sigOf = (s.getLast?).map sigOf :=
+  goal_preserved_run ops s s' hs h
+
 /-! Non-vacuity: a state with a subproof; inserting two lines inside it and setting one of them. -/
 def s1 : Proof :=
   [.mk [0] 3 [] (some ⟨1, []⟩) true
@@ -116,5 +126,12 @@ example : (match run s1 [.addLineBefore [0, 1] 2, .setLine [0, 1] 6 [[0, 0]] (so
 
 example : citeSafe (.setLine [0, 1] 6 [[0, 0]] (some ⟨9, [2]⟩)) := by
   simp [citeSafe]; decide
+
+example : safeRun s1 [.addLineBefore [1] 1, .addLineBefore [0, 1] 1, .removeLine [0, 1]] := by
+  simp [safeRun, goalSafe, targetOk, s1]
+
+example : (match run s1 [.addLineBefore [1] 1, .addLineBefore [0, 1] 1, .removeLine [0, 1]] with
+    | .ok s' => wf s' && ((s'.getLast?).map sigOf == (s1.getLast?).map sigOf) && s'.length == 3
+    | .error _ => false) = true := by decide
 
 end Holpy.C13
